@@ -5,6 +5,7 @@ go 1.23.0
 toolchain go1.23.5
 
 require (
+	github.com/anishathalye/porcupine v1.3.0
 	gonum.org/v1/gonum v0.0.0
 	verif/simrt v0.0.0
 )
